@@ -34,7 +34,11 @@ def check_cache(
 
     from hypergraph.cache import compute_cache_key
 
-    cache_key = compute_cache_key(node.definition_hash, inputs)
+    # Key on what determines the cached payload: the function, the arguments as
+    # the function receives them (original parameter names), the output names the
+    # payload is keyed by, and a gate's routing configuration.
+    identity = f"{node.definition_hash}:{type(node).__name__}:{node.data_outputs!r}:{node.outputs!r}:{_routing_config(node)!r}"
+    cache_key = compute_cache_key(identity, node.map_inputs_to_params(inputs))
     if not cache_key:
         return "", None
 
@@ -43,6 +47,15 @@ def check_cache(
         return cache_key, None
 
     return cache_key, dict(cached_value)
+
+
+def _routing_config(node: HyperNode) -> tuple:
+    """Routing configuration that shapes a gate's cached decision."""
+    if isinstance(node, IfElseNode):
+        return (str(node.when_true), str(node.when_false))
+    if isinstance(node, RouteNode):
+        return (tuple(str(t) for t in node.targets), str(node.fallback), node.multi_target)
+    return ()
 
 
 def restore_routing_decision(
